@@ -1,10 +1,27 @@
 import TempestVerif.Drv.Util
-/- line-protocol handlers of property C11 (stub: no commands yet) -/
+import TempestVerif.Model.Warmup
+/- line-protocol handlers of property C11.
+   warm.Q | warm.F  bs=<n>:<nfin>;<n>:<nfin>;…   → the recorded linear-space evidences Z_1,…,Z_k
+-/
 namespace Drv.C11
-open Drv
+open Drv Model.Warmup
+
+def parseB? (s : String) : Option (Nat × Nat) :=
+  match s.splitOn ":" with
+  | [a, b] => match a.toNat?, b.toNat? with
+    | some n, some f => some (n, f)
+    | _, _ => none
+  | _ => none
+
+def warm (α : Type) [Sc α] [Codec α] (args : List (String × String)) : String :=
+  match (getArg args "bs").bind fun s => (s.splitOn ";").mapM parseB? with
+  | some bs => showList Codec.shw ((run (α := α) batchZ [] bs).map (·.2))
+  | none => "bad-op"
 
 def handle (cmd : String) (args : List (String × String)) : Option String :=
   match cmd with
+  | "warm.Q" => some (warm Rat args)
+  | "warm.F" => some (warm Float args)
   | _ => none
 
 end Drv.C11
